@@ -3,5 +3,5 @@
 cd "$(dirname "$0")" || exit 2
 export PATH="/opt/veriftools/lean/bin:$PATH"
 export PYTHONDONTWRITEBYTECODE=1 HIT9_BITPROTO_VERIF=1
-if [ -n "$2" ]; then export VERIF_TIER="$2"; fi
+if [ "$2" = quick ] || [ "$2" = thorough ]; then export VERIF_TIER="$2"; fi
 exec /venv/bin/python -m tools.check "$@"
